@@ -165,6 +165,16 @@ func (s *SvSync) hashName(nodeId enc.Name) uint64 {
 }
 
 func (s *SvSync) onReceiveStateVector(sv *stlv.StateVector) {
+	// The application is notified after the mutex is released: its callback may
+	// take locks that are held by callers of SetSeqNo / IncrSeqNo / GetSeqNo.
+	// Updates are still delivered in order (this runs on the main goroutine only).
+	var updates []SvSyncUpdate
+	defer func() {
+		for _, update := range updates {
+			s.onUpdate(update)
+		}
+	}()
+
 	s.mutex.Lock()
 	defer s.mutex.Unlock()
 
@@ -186,8 +196,8 @@ func (s *SvSync) onReceiveStateVector(sv *stlv.StateVector) {
 			// time for each updated node.
 			s.mtime[hash] = time.Now()
 
-			// Notify the application of the update
-			s.onUpdate(SvSyncUpdate{
+			// Notify the application of the update (once the mutex is released)
+			updates = append(updates, SvSyncUpdate{
 				NodeId: entry.NodeId,
 				High:   entry.SeqNo,
 				Low:    prev + 1,
